@@ -65,10 +65,11 @@ ASSUMPTIONS = [
     "channel in which every element is constant over n draws is reported as "
     "deterministic when an input is further than u_ub*L/n from its output, "
     "u_ub = smallest non-zero |output| >= unit",
-    "outputs within 2 float32 ulp of an admissible code are bucketed as "
+    "outputs within 2 float32 ulp (of the largest of output, code and, for the "
+    "sign family, input) of an admissible code are bucketed as "
     "ste_ulp_noise (x + (xq - x) rounding), further away as a wrong value",
 ]
-BUDGET_S = {"quick": 32, "thorough": 780}
+BUDGET_S = {"quick": 28, "thorough": 780}
 REQUIRED_LABELS = {
     t: ["fam:fixed", "fam:po2", "fam:sign", "fam:auto", "train", "infer", "interior",
         "exact_code", "clipped", "walk", "hyp", "quantized_bits",
@@ -119,10 +120,14 @@ def _variant(fam, cfg):
           "sign": S.sign_variant, "auto": S.sign_variant}[fam](cfg)
 
 
-def _ulps(y, target):
+def _ulps(y, target, surrogate=None):
+  """Distance in float32 ulps of the largest term of s + (xq - s) (DESIGN 3.1)."""
   y = np.asarray(y, dtype=np.float64)
   t32 = np.asarray(target, dtype=np.float32)
-  sp = np.spacing(np.maximum(np.abs(y).astype(np.float32), np.abs(t32))).astype(np.float64)
+  big = np.maximum(np.abs(y).astype(np.float32), np.abs(t32))
+  if surrogate is not None:
+    big = np.maximum(big, np.abs(np.asarray(surrogate, dtype=np.float32)))
+  sp = np.spacing(big).astype(np.float64)
   return np.abs(y - np.asarray(target, dtype=np.float64)) / np.maximum(sp, 1e-300)
 
 
@@ -298,7 +303,7 @@ def _sign_train(cfg, base, y, redraw):
       fails.append(("sign_codes", {"clause": "codes", "kind": "scale_not_po2"},
                     "channel scale %r" % s, elem(0, ch)))
     if not okset.all():
-      ul = _ulps(col[~okset], target[~okset])
+      ul = _ulps(col[~okset], target[~okset], np.broadcast_to(xc[None], col.shape)[~okset])
       kind = "ste_ulp_noise" if np.all(ul <= 2.0) else "wrong_value"
       mi = int(np.nonzero((~okset).any(axis=0))[0][0])
       fails.append(("sign_codes", {"clause": "codes", "kind": kind},
@@ -771,7 +776,7 @@ def run(ctx):
   # of one chunk (each chunk has its own derived seed); the number of chunks is
   # fixed, so a run that is not cut by the budget is a function of VERIF_SEED.
   total = (4800 if ctx.quick else 24000) // ctx.n + 1
-  chunk = 30
+  chunk = 12
   strat = _strategy(ctx, pools)
   done = 0
   k = 0
